@@ -1,7 +1,7 @@
 #!/bin/bash
 # usage: overlay_test.sh <repo-dir> <package dir relative to repo> <test file> <TestName>
 # Runs one in-package test against <repo-dir> without writing into it: the file is injected with `go test -overlay`,
-# the package's own test files are neutralised, and the missing cgo dependencies get the buildable stubs of /verif/stubs.
+# the package's own test files are neutralised (KEEP_PKG_TESTS=1 keeps them: demos that use their helpers), and the missing cgo dependencies get the buildable stubs of /verif/stubs.
 set -u
 REPO=$(cd "$1" && pwd); PKG=$2; TF=$(readlink -f "$3"); TN=$4
 . /verif/tools/env.sh
@@ -13,8 +13,9 @@ import json,os,sys
 repo,pkg,tf,tmp=sys.argv[1:5]
 d=os.path.join(repo,pkg)
 repl={os.path.join(d,"zz_overlay_demo_test.go"):tf}
-for e in os.listdir(d):
-    if e.endswith("_test.go"): repl[os.path.join(d,e)]=os.path.join(tmp,"empty_test.go")
+if os.environ.get("KEEP_PKG_TESTS","0")!="1":
+    for e in os.listdir(d):
+        if e.endswith("_test.go"): repl[os.path.join(d,e)]=os.path.join(tmp,"empty_test.go")
 repl[os.path.join(repo,"pkg/Rust-VRF/vrf-func-ffi/src/vrf.go")]="/verif/stubs/vrf_build/vrf.go"
 repl[os.path.join(repo,"pkg/erasure_coding/erasure_coding.go")]="/verif/stubs/erasure_build/erasure_coding.go"
 json.dump({"Replace":repl},open(os.path.join(tmp,"ov.json"),"w"))
